@@ -4,7 +4,8 @@ EXTENDS StoreRepr
 
 CONSTANTS Ks,          \* ODS widths
           NsSeq,       \* ascending sequence of the namespaces data shares may carry
-          WithEmpty    \* include the empty block
+          WithEmpty,   \* include the empty block
+          CfgRs, CfgSs \* store configurations: recent cache on/off, serving cache (Store.WithCache) on/off
 
 Ns1 == <<4>>
 Ns2 == <<2, 6>>
@@ -12,7 +13,7 @@ Ns3 == <<2, 4, 6>>
 
 MCLayouts == UNION { Layouts(k, NsSeq) : k \in Ks } \cup (IF WithEmpty THEN {EmptyLayout} ELSE {})
 
-Init == \E L \in MCLayouts, cfgR \in BOOLEAN, cfgS \in BOOLEAN :
+Init == \E L \in MCLayouts, cfgR \in CfgRs, cfgS \in CfgSs :
           /\ W = WorldOf(L)
           /\ st = InitStore(cfgR, cfgS)
           /\ hist = <<>>
